@@ -134,6 +134,19 @@ where
         match &mut self.inner {
             InnerConnection::H2(conn) => {
                 *request.version_mut() = http::Version::HTTP_2;
+                // `Connection` is illegal in HTTP/2. hyper removes it together with the
+                // headers it names, but panics while doing so when the value is not visible
+                // ASCII (a legal `HeaderValue`), so it is removed here in the same way.
+                if let Some(value) = request.headers_mut().remove(http::header::CONNECTION) {
+                    if let Ok(names) = value.to_str() {
+                        for name in names.split(',') {
+                            let name = name.trim();
+                            if !name.is_empty() {
+                                request.headers_mut().remove(name);
+                            }
+                        }
+                    }
+                }
                 Box::pin(conn.send_request(request))
             }
             InnerConnection::H1(conn) => {
